@@ -43,6 +43,10 @@ type item struct {
 	// (then the time in the ULID, set from D, is used).
 	Marked bool `json:"marked,omitempty"`
 	NoLM   bool `json:"no_lm,omitempty"`
+	// partial: the listing of the block's objects fails after this many objects (0 = before
+	// the first one); -1 / absent = no fault.  With a fault the ULID time is set to the same
+	// age as the newest object.
+	ListFault *int `json:"list_fault,omitempty"`
 }
 
 type input struct {
@@ -144,6 +148,29 @@ func facts(repo string, w io.Writer) error {
 	}
 	fmt.Fprintln(w, "(* clean.go: the partial upload is left alone; lm = newest last-modified of its objects *)")
 	fmt.Fprint(w, cu.Def("partial_young", []string{"now", "lm"}, "bool", c))
+	// getOldestModifiedTime: what is returned when the listing failed
+	ife, err := cu.TheIf(s, "getOldestModifiedTime", "`if err != nil { return ..., err }` after the listing", func(is *ast.IfStmt) bool {
+		return s.ExprString(is.Cond) == "err != nil" && singleStmt(is.Body, "return")
+	})
+	if err != nil {
+		return err
+	}
+	ret := ife.Body.List[0].(*ast.ReturnStmt)
+	if len(ret.Results) != 2 {
+		return fmt.Errorf("srcfacts: getOldestModifiedTime: error path returns %d values", len(ret.Results))
+	}
+	var onErr string
+	switch txt := s.ExprString(ret.Results[0]); txt {
+	case "timestamp.Time(int64(blockID.Time()))":
+		onErr = "ulid_t"
+	case "lastModifiedTime":
+		onErr = "seen"
+	default:
+		return fmt.Errorf("srcfacts: getOldestModifiedTime: error path returns %s, not translatable", txt)
+	}
+	fmt.Fprintln(w, "(* clean.go getOldestModifiedTime: the time returned when listing the block's objects failed;")
+	fmt.Fprintln(w, "   ulid_t = creation time in the block's ULID, seen = newest last-modified time seen before the failure *)")
+	fmt.Fprint(w, cu.Def("oldest_time_on_error", []string{"ulid_t", "seen"}, "Z", onErr))
 	// the deletion-mark test comes first in the loop body and continues
 	fd, err := s.FindFunc(pf)
 	if err != nil {
@@ -346,20 +373,31 @@ func run(raw json.RawMessage) (common.Case, error) {
 		lmOf := map[string]time.Time{}
 		type b struct {
 			id     ulid.ULID
-			lm     int64
+			ulidNs int64
+			lms    []int64 // true last-modified times in listing order; nil = not reported
+			fault  int
 			marked bool
 		}
 		var bs []b
+		faults := map[string]int{}
 		for i, it := range in.Items {
 			lm := now0.UnixNano() - int64(thr) + it.D*1e6
 			ulidMs := uint64(now0.UnixMilli()) // young: must not be used when a last-modified time exists
-			if it.NoLM {
+			fault := -1
+			if it.ListFault != nil && *it.ListFault >= 0 {
+				fault = *it.ListFault
+			}
+			if it.NoLM || fault >= 0 {
 				ulidMs = uint64(lm / 1e6)
-				lm = int64(ulidMs) * 1e6
+				if it.NoLM {
+					lm = int64(ulidMs) * 1e6
+				}
 			}
 			id := mkULID(ulidMs, i)
 			partial[id] = fmt.Errorf("meta.json missing")
-			for j, name := range []string{path.Join(id.String(), "index"), path.Join(id.String(), "chunks", "000001")} {
+			var lms []int64
+			// listing order of the in-memory bucket: chunks/000001, then index
+			for j, name := range []string{path.Join(id.String(), "chunks", "000001"), path.Join(id.String(), "index")} {
 				if err := upload(inmem, name, []byte("x")); err != nil {
 					return c, err
 				}
@@ -367,18 +405,25 @@ func run(raw json.RawMessage) (common.Case, error) {
 					lmOf[name] = time.Time{}
 				} else {
 					// the newest object decides
-					lmOf[name] = time.Unix(0, lm-int64(j)*3600e9)
+					t := lm - int64(1-j)*3600e9
+					lmOf[name] = time.Unix(0, t)
+					lms = append(lms, t)
 				}
 			}
 			if it.Marked {
 				marks[id] = &metadata.DeletionMark{ID: id, Version: 1, DeletionTime: now0.Unix() - 10}
 			}
-			bs = append(bs, b{id, lm, it.Marked})
+			if fault >= 0 {
+				faults[id.String()] = fault
+			}
+			bs = append(bs, b{id, int64(ulidMs) * 1e6, lms, fault, it.Marked})
 		}
 		bkt.ModTime = func(name string) (time.Time, bool) { t, ok := lmOf[name]; return t, ok }
+		bkt.IterFail = func(dir string) (int, bool) { k, ok := faults[strings.TrimSuffix(dir, "/")]; return k, ok }
 		nowA := time.Now()
 		compact.BestEffortCleanAbortedPartialUploads(ctx, logger, partial, bkt, counter(), counter(), counter(), marks)
 		nowB := time.Now()
+		bkt.IterFail = nil
 		var xs []string
 		var obs []any
 		for _, x := range bs {
@@ -386,14 +431,32 @@ func run(raw json.RawMessage) (common.Case, error) {
 			if err != nil {
 				return c, err
 			}
-			xs = append(xs, common.Tuple(common.Z(x.lm), common.Bool(x.marked), common.Bool(!left)))
-			obs = append(obs, map[string]any{"last_modified_ns": x.lm, "marked": x.marked, "deleted": !left, "untouched_ns": nowB.UnixNano() - x.lm})
+			fl := common.None
+			if x.fault >= 0 {
+				fl = common.Some(common.Nat(x.fault))
+			}
+			xs = append(xs, common.Tuple(common.Z(x.ulidNs), common.ZList(x.lms), fl, common.Bool(x.marked), common.Bool(!left)))
+			newest := x.ulidNs
+			for _, t := range x.lms {
+				if t > newest || newest == x.ulidNs && len(x.lms) > 0 {
+					newest = t
+				}
+			}
+			if len(x.lms) > 0 {
+				newest = x.lms[0]
+				for _, t := range x.lms {
+					if t > newest {
+						newest = t
+					}
+				}
+			}
+			obs = append(obs, map[string]any{"ulid_ns": x.ulidNs, "last_modified_ns": x.lms, "listing_fails_after": x.fault, "marked": x.marked, "deleted": !left, "untouched_ns": nowB.UnixNano() - newest})
 			if !left {
 				c.Nontrivial = true
 				if x.marked {
 					c.GoPred, c.Sig = "partial upload that is already marked for deletion was removed by the partial-upload cleaner", "partial-marked-deleted"
-				} else if !(nowB.UnixNano()-x.lm > int64(thr)) {
-					c.GoPred, c.Sig = fmt.Sprintf("partial upload removed before it was untouched for %v", thr), "partial-early"
+				} else if !(nowB.UnixNano()-newest > int64(thr)) {
+					c.GoPred, c.Sig = fmt.Sprintf("partial upload removed before it was untouched for %v (listing of its objects failed after %d objects: %v)", thr, x.fault, x.fault >= 0), "partial-early"
 				}
 			}
 		}
@@ -445,6 +508,10 @@ func gen(r *rand.Rand, tier string, n int) []any {
 				it := item{D: common.Pick(r, int64(-86400000), -3000, -1000, -300, 300, 1000, 3000, 86400000), Marked: r.Intn(4) == 0, NoLM: r.Intn(4) == 0}
 				if r.Intn(3) == 0 {
 					it.D = common.Between(r, -5000, 5000)
+				}
+				if r.Intn(3) == 0 {
+					k := r.Intn(3) // before the first object, after one, after both (the listing still fails)
+					it.ListFault = &k
 				}
 				in.Items = append(in.Items, it)
 			}
